@@ -2048,4 +2048,106 @@ example : Inv (enableRec (init (0 : ℚ) 2 2 1 4)) ∧ (enableRec (init (0 : ℚ
     (enableRec (init (0 : ℚ) 2 2 1 4)).recTime.head? = some 0 ∧ (enableRec (init (0 : ℚ) 2 2 1 4)).min = 0 :=
   ⟨enableRec_inv _ (inv_init 0 2 2 1 4 (by norm_num) (le_refl _) (by decide +kernel)), rfl, rfl, rfl⟩
 
+/-! ### round 6: re-meshes to a grid of the SAME class width (translated by a fraction of a class, by whole classes,
+backwards, or with another class count) -/
+
+/-- the re-mesh target has exactly the class width of the current grid -/
+def SameWidth (s : State α) (cMin cMax : α) (b? : Option Nat) : Prop :=
+  firstWidth (targetOf s cMin cMax b?).bounds = firstWidth s.bounds
+
+/-- a successful re-mesh lands on the target grid (whatever happens to the populations) -/
+theorem change_false_bounds (s s' : State α) (cMin cMax : α) (b? : Option Nat) (h : Inv s)
+    (hs : change s cMin cMax b? false = some s') :
+    s'.bounds = (targetOf s cMin cMax b?).bounds ∧ s'.size = (targetOf s cMin cMax b?).size := by
+  rw [change_false_eq s cMin cMax b? h] at hs
+  have hs' := Option.some.inj hs
+  split at hs' <;> (subst hs'; exact ⟨rfl, rfl⟩)
+
+/-- **same-width re-mesh keeps the volume** (corollary of `remesh_M3_iff` for this class of re-meshes): a re-mesh of a
+consistent grid onto a grid of the same class width — aligned with the old one or not — keeps the class width and
+preserves the third moment exactly whenever the interpolated distribution is not empty.  The rescaling by
+`oldV/newV` is what makes this true: see `changeSkip_same_width_M3` / `skipRescale_changes_M3`. -/
+theorem change_preserves_M3_same_width (s s' : State α) (cMin cMax : α) (b? : Option Nat) (h : Inv s)
+    (hs : change s cMin cMax b? false = some s') (hw : SameWidth s cMin cMax b?)
+    (hnewV : remeshNewV s cMin cMax b? ≠ 0) :
+    thirdMoment s' = thirdMoment s ∧ firstWidth s'.bounds = firstWidth s.bounds := by
+  refine ⟨remesh_preserves_M3_partial s s' cMin cMax b? h hs hnewV, ?_⟩
+  rw [(change_false_bounds s s' cMin cMax b? h hs).1]; exact hw
+
+/-- the variant that returns before the rescaling when the class width is unchanged leaves the third moment of the
+INTERPOLATED distribution (`newV`), for every consistent grid and every same-width target -/
+theorem changeSkip_same_width_M3 (s s' : State α) (cMin cMax : α) (b? : Option Nat) (h : Inv s)
+    (hw : SameWidth s cMin cMax b?) (hs : changeSkipSameWidth s cMin cMax b? = some s') :
+    thirdMoment s' = remeshNewV s cMin cMax b? := by
+  obtain ⟨hn, hpl, hbl, hsl, -⟩ := inv_spec s h
+  have hg : ¬ (s.psd.length ≠ s.size.length ∨ s.psd.length + 1 ≠ s.bounds.length ∨
+      (s.psd.length = 0 ∧ (retarget s cMin cMax b?).bins ≠ 0)) := by
+    rw [hpl, hbl, hsl]; omega
+  have hw' : ¬ (firstWidth (reset (retarget s cMin cMax b?) false).bounds < firstWidth s.bounds ∨
+      firstWidth s.bounds < firstWidth (reset (retarget s cMin cMax b?) false).bounds) := by
+    have e : firstWidth (reset (retarget s cMin cMax b?) false).bounds = firstWidth s.bounds := hw
+    rw [e]; simp
+  simp only [changeSkipSameWidth, if_neg hg, if_neg hw'] at hs
+  have hs' := Option.some.inj hs
+  subst hs'; rfl
+
+/-- ... hence it preserves the volume only if the interpolation happens to: on a same-width target the variant is
+correct **iff** `newV = M3` -/
+theorem changeSkip_same_width_iff (s s' : State α) (cMin cMax : α) (b? : Option Nat) (h : Inv s)
+    (hw : SameWidth s cMin cMax b?) (hs : changeSkipSameWidth s cMin cMax b? = some s') :
+    thirdMoment s' = thirdMoment s ↔ remeshNewV s cMin cMax b? = thirdMoment s := by
+  rw [changeSkip_same_width_M3 s s' cMin cMax b? h hw hs]
+
+/-- off the same-width class the variant IS the code -/
+theorem changeSkip_other_width (s : State α) (cMin cMax : α) (b? : Option Nat) (h : Inv s)
+    (hw : firstWidth (targetOf s cMin cMax b?).bounds ≠ firstWidth s.bounds) :
+    changeSkipSameWidth s cMin cMax b? = change s cMin cMax b? false := by
+  obtain ⟨hn, hpl, hbl, hsl, -⟩ := inv_spec s h
+  have hg : ¬ (s.psd.length ≠ s.size.length ∨ s.psd.length + 1 ≠ s.bounds.length ∨
+      (s.psd.length = 0 ∧ (retarget s cMin cMax b?).bins ≠ 0)) := by
+    rw [hpl, hbl, hsl]; omega
+  have hw' : firstWidth (reset (retarget s cMin cMax b?) false).bounds < firstWidth s.bounds ∨
+      firstWidth s.bounds < firstWidth (reset (retarget s cMin cMax b?) false).bounds :=
+    lt_or_gt_of_ne hw
+  simp only [changeSkipSameWidth, if_neg hg, if_pos hw']
+
+/-- four classes of width 2 on [0,8] (boundaries 0,2,4,6,8), the two middle classes [2,4] and [4,6] populated -/
+def witnessSW : State ℚ := { init (0 : ℚ) 8 4 1 8 with psd := [0, 3, 5, 0] }
+
+theorem witnessSW_inv : Inv witnessSW :=
+  setPsd_inv _ _ (inv_init 0 8 4 1 8 (by norm_num) (by norm_num) (by decide +kernel))
+    (by decide +kernel) (by decide +kernel)
+
+/-- the re-mesh `changeSizeClasses(1, 11, 5)`: five classes of the SAME width 2, boundaries 1,3,…,11 — the old grid
+translated by HALF a class; it covers the populated range [2,6] -/
+theorem witnessSW_same_width : SameWidth witnessSW 1 11 (some 5) ∧
+    (targetOf witnessSW 1 11 (some 5)).bounds = [1, 3, 5, 7, 9, 11] ∧ firstWidth witnessSW.bounds = 2 := by
+  decide +kernel
+
+/-- **the code keeps the volume on the half-class shift** (M3 = 706 before and after; the interpolated distribution
+[3/2, 4, 5/2, 0, 0] has `newV = 581`), -/
+theorem witnessSW_change_keeps_M3 :
+    ∃ s', change witnessSW 1 11 (some 5) false = some s' ∧ thirdMoment witnessSW = 706 ∧ thirdMoment s' = 706 ∧
+      remeshNewV witnessSW 1 11 (some 5) = 581 ∧ s'.psd = [1059/581, 2824/581, 1765/581, 0, 0] := by
+  decide +kernel
+
+/-- **… and the variant that skips the rescaling for an unchanged class width does not**: same grid, same
+distribution, same re-mesh: the third moment goes from 706 to 581 although the new grid covers the populated range -/
+theorem skipRescale_changes_M3 :
+    ∃ s', changeSkipSameWidth witnessSW 1 11 (some 5) = some s' ∧ s'.bounds = [1, 3, 5, 7, 9, 11] ∧
+      s'.psd = [3/2, 4, 5/2, 0, 0] ∧ thirdMoment witnessSW = 706 ∧ thirdMoment s' = 581 := by
+  decide +kernel
+
+/-- non-vacuity of the hypothesis set of `change_preserves_M3_same_width` / `changeSkip_same_width_M3`
+(consistent grid, successful re-mesh, same width, `newV ≠ 0`), and of `changeSkip_other_width` -/
+example : Inv witnessSW ∧ SameWidth witnessSW 1 11 (some 5) ∧ remeshNewV witnessSW 1 11 (some 5) ≠ 0 ∧
+    (change witnessSW 1 11 (some 5) false).isSome ∧ (changeSkipSameWidth witnessSW 1 11 (some 5)).isSome :=
+  ⟨witnessSW_inv, witnessSW_same_width.1, by decide +kernel, by decide +kernel, by decide +kernel⟩
+example : firstWidth (targetOf witnessSW 0 8 (some 8)).bounds ≠ firstWidth witnessSW.bounds := by decide +kernel
+example : (thirdMoment witnessSW = 706) ∧
+    ∀ s', change witnessSW 1 11 (some 5) false = some s' → thirdMoment s' = thirdMoment witnessSW :=
+  ⟨by decide +kernel, fun s' hs =>
+    (change_preserves_M3_same_width witnessSW s' 1 11 (some 5) witnessSW_inv hs witnessSW_same_width.1
+      (by decide +kernel)).1⟩
+
 end KawinV.Props.C08
